@@ -170,7 +170,7 @@ type Pool struct {
 var base = Pool{
 	Note:     map[int]string{1: "This is a comment", 2: "second comment line -> with arrow-like text"},
 	Css:      map[int]string{1: "::cue { background: lime }", 2: "::cue(.loud) { color: red }"},
-	Cls:      map[int]string{1: "loud", 2: "yellow"},
+	Cls:      map[int]string{1: "loud", 2: "yellow", 3: "big"},
 	Ann:      map[int]string{1: "en-GB"},
 	RegionID: map[int]string{1: "fred", 2: "bill"},
 	Width:    map[int]string{1: "40%"},
@@ -183,10 +183,10 @@ var base = Pool{
 }
 
 var texts = []map[int]string{
-	{1: "Hello world", 2: "second text"},
-	{1: "a & b &c; d", 2: "x < y <3 z"},
-	{1: "nb\u00a0sp", 2: "12"},
-	{1: "\U0001F600 non-BMP", 2: "ünï cödé 日本語"},
+	{1: "Hello world", 2: "second text", 3: "third"},
+	{1: "a & b &c; d", 2: "x < y <3 z", 3: "1 > 0"},
+	{1: "nb\u00a0sp", 2: "12", 3: "3"},
+	{1: "\U0001F600 non-BMP", 2: "ünï cödé 日本語", 3: "çà"},
 }
 var voices = []map[int]string{{1: "Esme"}, {1: "Mary Ann"}, {1: "هذا"}, {1: "中文"}}
 
